@@ -8,6 +8,10 @@ From SK Require Import model.C03_Model model.C05_Model proof.C05_Proof proof.C05
 From SK Require proof.C11_Dedup.
 Import ListNotations.
 
+Section WithThr.
+Context {TH : Thr}.
+
+
 (** ** conversions to the matcher's graphs commute with relabelling *)
 Lemma host_c06_relabel f (g : hostg) : host_c06 (relabel f g) = relabel f (host_c06 g).
 Proof.
@@ -52,9 +56,9 @@ Proof.
   unfold matches. rewrite host_c06_relabel, pat_c06_relabel.
   unfold C06_Model.find; simpl. unfold C06_Model.find_all.
   rewrite !(node_ids_relabel). rewrite monos_on'_relabel by assumption.
-  rewrite (all_loop_map (mv sg pi) 0%N DEFAULT_THRESHOLD _ [] 0%N).
+  rewrite (all_loop_map (mv sg pi) 0%N thr_val _ [] 0%N).
   rewrite lenN_map.
-  destruct (DEFAULT_THRESHOLD <? _)%N; reflexivity.
+  destruct (thr_val <? _)%N; reflexivity.
 Qed.
 
 (** ** rule automorphisms and pruning *)
@@ -149,8 +153,8 @@ Lemma matches_bt_comp host pat : matches 1%N host pat <> [] -> matches 2%N host 
 Proof.
   unfold matches, C06_Model.find; simpl. unfold C06_Model.find_bt.
   set (H := host_c06 host). set (P := pat_c06 pat).
-  destruct (C06_Model.find_comp (monos_on' H P) 0 DEFAULT_THRESHOLD true H P) as [|m r] eqn:E; [|reflexivity].
-  simpl. intros Hne. exfalso. apply Hne. reflexivity.
+  destruct (C06_Model.find_comp (monos_on' H P) 0 thr_val true H P) as [|m r] eqn:E; [|reflexivity].
+  simpl. intros Hne. exfalso. apply Hne. destruct (thr_val <? _)%N; reflexivity.
 Qed.
 
 Lemma kept_bt_comp host p : raw_of 1%N host p <> [] -> kept_of 2%N host p = kept_of 1%N host p.
@@ -187,3 +191,5 @@ Proof.
     exists k. split; [exact Hk | exact Hc].
   - exists m. split; auto.
 Qed.
+
+End WithThr.
